@@ -246,6 +246,9 @@ theorem bijective_functional_byNum {a b : Table} (h : bijective a b = true) : Fu
 theorem bijective_functional_byName {a b : Table} (h : bijective a b = true) : Functional b :=
   fun _ _ _ h1 h2 => bijective_keys_byName h h1 h2
 
+theorem optIs_of_eq {o : Option Nat} {v : Nat} (h : o = some v) : optIs o v = true := by
+  subst h; simp [optIs]
+
 /-! ### indexes -/
 
 theorem findEnum_mem {ix : EnumIndex} {tag : Nat} {x : Table × Table} (h : findEnum tag ix = some x) :
